@@ -835,7 +835,11 @@ def get_unique_label(label: str, labels: dict) -> tp.Tuple[str, dict]:
 
 def replace_in_expr(expr: Expr, replacements: dict):
     expr = expr.subs(replacements, simultaneous=True)
+    # second pass for arguments that `subs` left untouched. A symbol that the simultaneous substitution has just
+    # introduced (e.g. the backend label `x_v1` given to a variable `x`) must not be substituted again, even if another
+    # variable of the same operator carries that very name.
+    introduced = set(replacements.values())
     for arg_old in replacements:
-        if expr.count(arg_old):
+        if arg_old not in introduced and expr.count(arg_old):
             expr = expr.replace(arg_old, replacements[arg_old])
     return expr
